@@ -313,3 +313,68 @@ Definition project (ps : list prop) (rate : Z) (r : result) : run_res :=
   | Err => None
   | Tx t => Some (t_ins t, t_outs t, fee_quote (len (t_ins t)) (len ps + 1) rate)
   end.
+
+(* ---------------------------------------------------------------------------------------------- *)
+(* Round 3: from the deposit MESSAGE to the proposal (message-handler.go ERC20MessageHandler).
+
+   bigAmount := new(big.Int).SetBytes(amount)        -- non-negative, any size (18 decimals)
+   bigAmount.Div(bigAmount, 10^10)                   -- Euclidean = floor division (the remainder,
+                                                        less than one satoshi, is dropped)
+   Amount: bigAmount.Uint64()                        -- the low 64 bits of the quotient
+
+   So the proposal amount is the exact floor quotient as long as it fits a uint64, i.e. for message
+   amounts below 2^64 * 10^10 (the whole Bitcoin supply is 2.1e15 sat = 2.1e25 base units); beyond
+   that the quotient wraps (as coded). *)
+Definition ten10 : Z := 10000000000.
+Definition msg_limit : Z := two64 * ten10.
+Definition handler_amount (m : Z) : Z := u64 (m / ten10).
+
+(* hypothesis of the message-step theorems: amounts are non-negative (big.Int.SetBytes) *)
+Definition msgs_wf (ms : list Z) : bool := forallb (fun m => 0 <=? m) ms.
+
+Definition with_amounts (ps : list prop) (amts : list Z) : list prop :=
+  map (fun pa => mkProp (snd pa) (p_rcpt (fst pa))) (combine ps amts).
+
+(* judge of the message step: one proposal per message, and (below the limit) its amount is the
+   message amount scaled down by 10^10 exactly as the handler specifies (floor) *)
+Definition amounts_ok (ms impl : list Z) : bool :=
+  (length ms =? length impl)%nat
+  && forallb (fun ma => if fst ma <? msg_limit then snd ma =? fst ma / ten10 else true) (combine ms impl).
+
+(* ---------------------------------------------------------------------------------------------- *)
+(* Round 3: Executor.Execute - one delivery, several resources.
+
+   propsPerResource[prop.Data.ResourceId] = append(propsPerResource[...], prop)  for every proposal
+   that still needs execution, then ONE goroutine per map entry builds the transaction of that
+   resource from that entry's proposals (executeResourceProps(props, e.resources[resourceID], ..)).
+   [groups] is that map as an association list in first-occurrence order (Go iterates the map in
+   random order; the runner sorts what it observed by first member, and deposit nonces are the
+   delivery positions, so first-occurrence order IS that canonical order). *)
+Record eprop := mkE { e_nonce : N; e_rid : N }.
+
+Fixpoint add_to (p : eprop) (gs : list (N * list N)) : list (N * list N) :=
+  match gs with
+  | [] => [(e_rid p, [e_nonce p])]
+  | g :: t => if (fst g =? e_rid p)%N then (fst g, snd g ++ [e_nonce p]) :: t else g :: add_to p t
+  end.
+
+(* the proposals of resource [r], in delivery order *)
+Definition members (r : N) (ps : list eprop) : list N :=
+  map e_nonce (filter (fun p => (e_rid p =? r)%N) ps).
+
+Definition groups (ps : list eprop) : list (N * list N) := fold_left (fun gs p => add_to p gs) ps [].
+
+(* judge: what was observed of one run of Execute = per transaction built the resource it was built
+   for and the deposit nonces of the proposals it pays.  Every proposal of the delivery is paid by
+   exactly one transaction, that transaction is the one of its resource, and nothing else is paid. *)
+Definition occ (n : N) (obs : list (N * list N)) : nat :=
+  fold_right (fun g a => (count_occ N.eq_dec (snd g) n + a)%nat) 0%nat obs.
+Definition total (obs : list (N * list N)) : nat :=
+  fold_right (fun g a => (length (snd g) + a)%nat) 0%nat obs.
+
+Definition exec_ok (ps : list eprop) (obs : list (N * list N)) : bool :=
+  forallb (fun p => (occ (e_nonce p) obs =? 1)%nat
+                    && existsb (fun g => (fst g =? e_rid p)%N && existsb (N.eqb (e_nonce p)) (snd g)) obs) ps
+  && (total obs =? length ps)%nat.
+
+Definition nonces_distinct (ps : list eprop) : bool := nodupb N.eqb (map e_nonce ps).
